@@ -59,6 +59,136 @@ def promotion(tier='quick', seed=0):
             'evaluations': evals, 'exhaustive': True, 'functions': ['array_.Array._promotetype'], 'summary': f'{evals} ordered pairs'}
 
 
+def _list_case(seed, i):
+    """one randomly chosen list operation on one randomly chosen Array against the Python list model -> (ok, description);
+    deterministic in (seed, i), so a failure replays by calling it again"""
+    import bitstring
+    from bitstring import Array, BitArray, Dtype
+    rng = random.Random(seed * 1000003 + i)
+    specs = [('uint8', lambda: rng.randrange(256)), ('int5', lambda: rng.randrange(-16, 16)), ('uintle16', lambda: rng.randrange(65536)),
+             ('float32', lambda: rng.choice([0.0, 1.5, -2.25, 1024.0])), ('bytes2', lambda: bytes(rng.randrange(256) for _ in range(2))),
+             ('hex4', lambda: rng.choice('0123456789abcdef')), ('bool', lambda: rng.random() < 0.5), ('>h', lambda: rng.randrange(-2 ** 15, 2 ** 15))]
+    desc = ''
+    dt, gen = rng.choice(specs)
+    vals = [gen() for _ in range(rng.randint(0, 7))]
+    trailing = rng.choice(['', '', '0b1', '0b101']) if dt != 'bool' else ''
+    try:
+        a = Array(dt, vals, trailing_bits=trailing or None)
+        w = a.itemsize
+        model = list(vals)
+        op = rng.choice(['slice', 'setslice', 'setslice_array', 'delslice', 'reverse', 'tolist', 'iter', 'count', 'equals', 'copy', 'extend', 'insert', 'pop', 'len', 'dtype'])
+        desc = f'Array({dt!r}, {vals!r}, trailing_bits={trailing!r}).{op}'
+        tb = a.trailing_bits.bin
+        if op == 'slice':
+            k = slice(rng.choice([None, rng.randint(-9, 9)]), rng.choice([None, rng.randint(-9, 9)]), rng.choice([None, 1, 2, 3, -1, -2]))
+            ok = a[k].tolist() == model[k]
+            desc += f'[{k}]'
+        elif op == 'setslice':
+            k = slice(rng.choice([None, rng.randint(-9, 9)]), rng.choice([None, rng.randint(-9, 9)]), rng.choice([None, 1, 2, -1]))
+            new = [gen() for _ in range(rng.randint(0, 4))]
+            desc += f'[{k}] = {new!r}'
+            try:
+                model[k] = new
+                exp = model
+            except ValueError:
+                exp = ValueError
+            try:
+                a[k] = new
+                ok = exp is not ValueError and a.tolist() == exp and a.trailing_bits.bin == tb
+            except ValueError:
+                ok = exp is ValueError and a.tolist() == list(vals)
+        elif op == 'setslice_array':
+            # the assigned value is itself an Array -- of the same or another dtype, with or without trailing bits of its own:
+            # what is assigned is its *items*
+            k = slice(rng.choice([None, rng.randint(-9, 9)]), rng.choice([None, rng.randint(-9, 9)]), rng.choice([None, None, 1, 2, -1]))
+            src_vals = [gen() for _ in range(rng.randint(0, 4))]
+            src_tb = rng.choice(['', '0b1', '0b01101']) if dt != 'bool' else ''
+            src = Array(dt, src_vals, trailing_bits=src_tb or None)
+            if rng.random() < 0.3 and w % 8 == 0 and dt not in ('bytes2', 'float32'):
+                # a source whose trailing bits come from re-reading wider data
+                src = Array('uint8', [1, 2, 3][:rng.randint(0, 3)])
+            src_vals = src.tolist()          # (trailing bits as wide as an item are an item)
+            desc += f'[{k}] = Array({src.dtype!s}, {src_vals!r}, trailing_bits={src_tb!r})'
+            try:
+                model[k] = list(src_vals)
+                exp = model
+            except ValueError:
+                exp = ValueError
+            try:
+                a[k] = src
+                ok = exp is not ValueError and a.tolist() == exp and a.trailing_bits.bin == tb
+            except ValueError:
+                ok = exp is ValueError and a.tolist() == list(vals)
+        elif op == 'delslice':
+            k = slice(rng.choice([None, rng.randint(-9, 9)]), rng.choice([None, rng.randint(-9, 9)]), rng.choice([None, 1, 2, 3, -1, -2]))
+            desc += f' del [{k}]'
+            del model[k]
+            del a[k]
+            ok = a.tolist() == model and a.trailing_bits.bin == tb
+        elif op == 'reverse':
+            if trailing:
+                try:
+                    a.reverse()
+                    ok = False
+                except ValueError:
+                    ok = a.tolist() == model
+            else:
+                a.reverse()
+                ok = a.tolist() == model[::-1]
+        elif op == 'tolist':
+            ok = a.tolist() == model and len(a) == len(model)
+        elif op == 'iter':
+            ok = list(a) == model
+        elif op == 'count':
+            v = gen()
+            ok = a.count(v) == model.count(v)
+        elif op == 'equals':
+            ok = a.equals(Array(dt, vals, trailing_bits=trailing or None)) and not a.equals(Array(dt, vals + [gen()], trailing_bits=trailing or None))
+        elif op == 'copy':
+            import copy
+            c = copy.copy(a)
+            ok = c.equals(a) and c.data is not a.data
+            if len(c):
+                c[0] = gen()
+                ok = ok and a.tolist() == model
+        elif op == 'extend':
+            more = [gen() for _ in range(rng.randint(0, 3))]
+            if trailing:
+                try:
+                    a.extend(more)
+                    ok = False
+                except ValueError:
+                    ok = a.tolist() == model
+            else:
+                a.extend(more)
+                ok = a.tolist() == model + more
+        elif op == 'insert':
+            i, v = rng.randint(-9, 9), gen()
+            model.insert(i, v)
+            a.insert(i, v)
+            ok = a.tolist() == model and a.trailing_bits.bin == tb
+        elif op == 'pop':
+            if not model:
+                try:
+                    a.pop()
+                    ok = False
+                except IndexError:
+                    ok = True
+            else:
+                i = rng.randint(-len(model), len(model) - 1)
+                ok = a.pop(i) == model.pop(i) and a.tolist() == model and a.trailing_bits.bin == tb
+        elif op == 'len':
+            ok = len(a) == len(model) and a.data.bin == ''.join(Dtype(dt if not dt.startswith('>') else 'intbe16').build(v).bin for v in vals) + tb
+        else:
+            before = a.data.bin
+            a.dtype = 'uint8' if w % 8 == 0 else 'bin1'
+            ok = a.data.bin == before
+    except Exception as e:
+        ok = False
+        desc = f'{desc if "desc" in dir() else dt}: {type(e).__name__}: {e}'
+    return ok, desc
+
+
 def list_model(tier='quick', seed=0):
     import bitstring
     from bitstring import Array, BitArray, Dtype
@@ -66,108 +196,12 @@ def list_model(tier='quick', seed=0):
     fails = []
     evals = 0
     N = 400 if tier == 'quick' else 6000
-    specs = [('uint8', lambda: rng.randrange(256)), ('int5', lambda: rng.randrange(-16, 16)), ('uintle16', lambda: rng.randrange(65536)),
-             ('float32', lambda: rng.choice([0.0, 1.5, -2.25, 1024.0])), ('bytes2', lambda: bytes(rng.randrange(256) for _ in range(2))),
-             ('hex4', lambda: rng.choice('0123456789abcdef')), ('bool', lambda: rng.random() < 0.5), ('>h', lambda: rng.randrange(-2 ** 15, 2 ** 15))]
-    for _ in range(N):
-        dt, gen = rng.choice(specs)
-        vals = [gen() for _ in range(rng.randint(0, 7))]
-        trailing = rng.choice(['', '', '0b1', '0b101']) if dt != 'bool' else ''
-        try:
-            a = Array(dt, vals, trailing_bits=trailing or None)
-            w = a.itemsize
-            model = list(vals)
-            op = rng.choice(['slice', 'setslice', 'delslice', 'reverse', 'tolist', 'iter', 'count', 'equals', 'copy', 'extend', 'insert', 'pop', 'len', 'dtype'])
-            evals += 1
-            desc = f'Array({dt!r}, {vals!r}, trailing_bits={trailing!r}).{op}'
-            tb = a.trailing_bits.bin
-            if op == 'slice':
-                k = slice(rng.choice([None, rng.randint(-9, 9)]), rng.choice([None, rng.randint(-9, 9)]), rng.choice([None, 1, 2, 3, -1, -2]))
-                ok = a[k].tolist() == model[k]
-                desc += f'[{k}]'
-            elif op == 'setslice':
-                k = slice(rng.choice([None, rng.randint(-9, 9)]), rng.choice([None, rng.randint(-9, 9)]), rng.choice([None, 1, 2, -1]))
-                new = [gen() for _ in range(rng.randint(0, 4))]
-                desc += f'[{k}] = {new!r}'
-                try:
-                    model[k] = new
-                    exp = model
-                except ValueError:
-                    exp = ValueError
-                try:
-                    a[k] = new
-                    ok = exp is not ValueError and a.tolist() == exp and a.trailing_bits.bin == tb
-                except ValueError:
-                    ok = exp is ValueError and a.tolist() == list(vals)
-            elif op == 'delslice':
-                k = slice(rng.choice([None, rng.randint(-9, 9)]), rng.choice([None, rng.randint(-9, 9)]), rng.choice([None, 1, 2, 3, -1, -2]))
-                desc += f' del [{k}]'
-                del model[k]
-                del a[k]
-                ok = a.tolist() == model and a.trailing_bits.bin == tb
-            elif op == 'reverse':
-                if trailing:
-                    try:
-                        a.reverse()
-                        ok = False
-                    except ValueError:
-                        ok = a.tolist() == model
-                else:
-                    a.reverse()
-                    ok = a.tolist() == model[::-1]
-            elif op == 'tolist':
-                ok = a.tolist() == model and len(a) == len(model)
-            elif op == 'iter':
-                ok = list(a) == model
-            elif op == 'count':
-                v = gen()
-                ok = a.count(v) == model.count(v)
-            elif op == 'equals':
-                ok = a.equals(Array(dt, vals, trailing_bits=trailing or None)) and not a.equals(Array(dt, vals + [gen()], trailing_bits=trailing or None))
-            elif op == 'copy':
-                import copy
-                c = copy.copy(a)
-                ok = c.equals(a) and c.data is not a.data
-                if len(c):
-                    c[0] = gen()
-                    ok = ok and a.tolist() == model
-            elif op == 'extend':
-                more = [gen() for _ in range(rng.randint(0, 3))]
-                if trailing:
-                    try:
-                        a.extend(more)
-                        ok = False
-                    except ValueError:
-                        ok = a.tolist() == model
-                else:
-                    a.extend(more)
-                    ok = a.tolist() == model + more
-            elif op == 'insert':
-                i, v = rng.randint(-9, 9), gen()
-                model.insert(i, v)
-                a.insert(i, v)
-                ok = a.tolist() == model and a.trailing_bits.bin == tb
-            elif op == 'pop':
-                if not model:
-                    try:
-                        a.pop()
-                        ok = False
-                    except IndexError:
-                        ok = True
-                else:
-                    i = rng.randint(-len(model), len(model) - 1)
-                    ok = a.pop(i) == model.pop(i) and a.tolist() == model and a.trailing_bits.bin == tb
-            elif op == 'len':
-                ok = len(a) == len(model) and a.data.bin == ''.join(Dtype(dt if not dt.startswith('>') else 'intbe16').build(v).bin for v in vals) + tb
-            else:
-                before = a.data.bin
-                a.dtype = 'uint8' if w % 8 == 0 else 'bin1'
-                ok = a.data.bin == before
-        except Exception as e:
-            ok = False
-            desc = f'{desc if "desc" in dir() else dt}: {type(e).__name__}: {e}'
+    for i in range(N):
+        evals += 1
+        ok, desc = _list_case(seed, i)
         if not ok:
-            fails.append({'call': desc[:200], 'python': f"FAILS = True  # {desc[:150]}"})
+            fails.append({'call': desc[:200], 'python': "import sys\nsys.path.insert(0, '/verif')\nfrom props.C14 import _list_case\n"
+                                                       f"ok, desc = _list_case({seed}, {i})\nprint(desc)\nFAILS = not ok\n"})
             if len(fails) > 6:
                 break
     # element-wise operators against the list model (with the documented promotion and overflow -> ValueError)
